@@ -97,7 +97,13 @@ def run_case(case):
         snap = None
         for t, b in enumerate(bs):
             if case.get('early_save') is not None and t == case['early_save'] and t < case['cut']:
-                take_snapshot(U, case)            # an earlier checkpoint of the same engine (discarded): later saves must not be stale
+                early = take_snapshot(U, case)    # an earlier checkpoint of the same engine (discarded): later saves must not be stale
+                if case.get('carry'):
+                    # the user keeps the dict of the earlier checkpoint (what load_checkpoint hands back) and passes it as checkpoint_dict later:
+                    # its reserved entries are stale and must be overwritten by the save
+                    early['buf'].seek(0)
+                    U['carried'] = torch.load(early['buf'], weights_only=False)
+                    U['carried']['user_entry'] = 7
             if t == case['cut']:
                 snap = take_snapshot(U, case)
             one_step(U, b)
@@ -160,7 +166,7 @@ def run_case(case):
 def take_snapshot(S, case):
     buf = io.BytesIO()
     S['eng'].save_checkpoint(path=buf, module=S['model'], optimizer=S['opt'] if case['save_opt'] else None,
-                             noise_scheduler=S['ns'], grad_clip_scheduler=S['cs'])
+                             noise_scheduler=S['ns'], grad_clip_scheduler=S['cs'], checkpoint_dict=S.get('carried'))
     buf.seek(0)
     keys = sorted(torch.load(buf, weights_only=False).keys())
     buf.seek(0)
